@@ -91,6 +91,10 @@ class World:
             def __repr__(s):
                 return f"<M{mid}>"
 
+            if mid % 5 == 3:
+                def __bool__(s):           # falsy
+                    return False
+
         if mid % 7 in (1, 2, 4, 5):
             # the manager is an instance of a subclass: its exit method (and whatever alias or decorator it goes by) is inherited
             Mgr = type("Mgr", (Mgr,), {})
@@ -180,6 +184,10 @@ class World:
 
             def __repr__(s):
                 return f"<AM{mid}>"
+
+            if mid % 5 == 3:
+                def __len__(s):            # an emptied buffer / pool: falsy, which says nothing about whether it is a manager
+                    return 0
 
         if mid % 7 in (1, 2, 4, 5):
             AMgr = type("AMgr", (AMgr,), {})           # as for Mgr: everything inherited
@@ -1049,6 +1057,28 @@ def _closure_prog(kind: str) -> str:
 
 
 CORPUS += [(k, _closure_prog(k)) for k in ("gen", "coro", "sync")]
+CORPUS += [
+    # a manager implemented in Python around one implemented in C (and another Python one inside that): order of the entries
+    _c("gen", """    with W.T('x', W.M(True)) as x:
+        try:
+            with W.LK():
+                yield 1
+                with W.T('y', W.M(True)) as y:
+                    yield 1
+        finally:
+            W.lk_done(1)
+        yield 1
+"""),
+    _c("coro", """    async with W.T('x', W.AM(True)) as x:
+        with W.T('y', W.M(True)) as y:
+            try:
+                with W.LK():
+                    await TRAP()
+            finally:
+                W.lk_done(1)
+            await TRAP()
+"""),
+]
 
 
 CORPUS_ODD = [
